@@ -48,6 +48,11 @@ pub fn populate(mk: &mut Mk, o: &TreeOpts) {
         mk.put_slot(root, &label);
         let old: Vec<u32> = OLD_CHAIN.iter().map(|&c| fix(c)).collect();
         let old_slot = mk.file(root, "OLD.DAT", 0x20, &old, 2 * cb + cb / 2, 1);
+        // created and last written at different times (2018-12-09 19:22:34 / 2019-03-11 08:05:02)
+        mk.patch_slot(root, old_slot, |e| {
+            e[22..24].copy_from_slice(&(((8u16) << 11) | (5 << 5) | 1).to_le_bytes());
+            e[24..26].copy_from_slice(&((((2019 - 1980) as u16) << 9) | (3 << 5) | 11).to_le_bytes());
+        });
         if !mk.g.fat32 {
             // on FAT16 bytes 20..22 of an entry are not a cluster field (other systems keep an extended-attribute
             // handle there): a non-zero value must not influence where the file is found
@@ -55,9 +60,16 @@ pub fn populate(mk: &mut Mk, o: &TreeOpts) {
         }
         // RO.DAT sits in the very first data cluster (directly behind a FAT16 root directory); the rest of its block is zero
         mk.file(root, "RO.DAT", 0x21, &[fix(2)], 100, 2);
-        mk.file(root, "EMPTY.DAT", 0x20, &[], 0, 3);
+        // hidden + archive: hidden and system files are ordinary files to this library
+        mk.file(root, "EMPTY.DAT", 0x22, &[], 0, 3);
         // exactly three clusters (cluster-aligned length), chain not in ascending order
-        mk.file(root, "ALGN.DAT", 0x20, &[fix(15), fix(14), fix(16)], 3 * cb, 6);
+        let algn_slot = mk.file(root, "ALGN.DAT", 0x20, &[fix(15), fix(14), fix(16)], 3 * cb, 6);
+        // fields other systems fill in and this library does not interpret: case flags, creation-time tenths, access date
+        mk.patch_slot(root, algn_slot, |e| {
+            e[12] = 0x18;
+            e[13] = 150;
+            e[18..20].copy_from_slice(&FMT_DATE.to_le_bytes());
+        });
         // a deleted slot
         let mut del = short_entry(&mkfs::n11("DELETED.TXT"), 0x20, 0, 0, FMT_DATE, FMT_TIME, FMT_DATE, FMT_TIME);
         del[0] = 0xE5;
@@ -84,7 +96,7 @@ pub fn populate(mk: &mut Mk, o: &TreeOpts) {
         while mk.next_slot(sub) + o.sub_free_slots < total {
             if mk.next_slot(sub) == 15 {
                 // the last slot of the first directory block holds a deletable file with contents
-                mk.file(sub, "B.DAT", 0x20, &[fix(17)], 300, 7);
+                mk.file(sub, "B.DAT", 0x24, &[fix(17)], 300, 7);
                 continue;
             }
             if mk.next_slot(sub) == 5 {
